@@ -18,6 +18,8 @@
 //  3. Everything is logged as BigNat limbs; TLC validates the trace against
 //     spec/rhp/ContractsTrace.tla (post-conditions of ContractRules.tla, and the transcribed
 //     consensus rules must agree with every real verdict). rhp/v2 / rhp/v3 lines: tax equation.
+//     3a. Tax inversion (spec/rhp/TaxEquation.tla, TaxInversion.tla, tax.go): TLC enumerates the targets at every residue
+//     boundary of the v1 tax equation; each goes through the rhp/v2 and rhp/v3 constructors to the real consensus validation.
 //     3b. Admission (spec/rhp/Admission.tla, adm.go): TLC enumerates requests on both sides of every gate of the
 //     admission rules of the RPC requests; each is realised on a real lineage, the real Validate method is
 //     asked, and whatever it admits goes through the real constructor to the real consensus validation.
@@ -158,13 +160,14 @@ type seqCase struct {
 	Sk   []skOp   `json:"sk"`
 	Line int      `json:"line,omitempty"` // v1: line number within the v1 batch
 	Adm  *admPlan `json:"adm,omitempty"`  // adm: the admission lineage
+	Tax  *taxPick `json:"tax,omitempty"`  // tax: a target of the tax inversion model
 	Msgs []string `json:"messages,omitempty"`
 	Ev   any      `json:"event,omitempty"`
 }
 
 func v1Line(env *v1env, seed int64, i int) ev {
 	r := rand.New(rand.NewSource(seed*7368787 + int64(i)*104729 + 3))
-	return env.line(r, i%5)
+	return env.line(r, i%5, nil)
 }
 
 // runModelChecks: the TLC runs that only concern the models (a failure ends the run as a spec bug, exit 2).
@@ -198,6 +201,16 @@ func runModelChecks(c *vlib.Ctx, cov map[string]int64) {
 	wz, err := c.TLC(vlib.TLCOpts{SpecDirs: []string{specDir}, Module: "ContractsDesign", Config: "ContractsDesignSizesReach.cfg", Workers: 4, NoCount: true, Timeout: 10 * time.Minute})
 	if err != nil {
 		c.Fatal("design model (sizes) reachability: %v", err)
+	}
+	// 1d. thorough: the tax equation over every target of one full period: solvable, at most two solutions, the
+	// floor estimate brackets the largest one, the inversion returns it, the near-miss inversions fail exactly
+	// on their classes, and every target of a boundary class lies in a window of the window mode
+	if c.Thorough {
+		sc := c.MustTLC(vlib.TLCOpts{SpecDirs: []string{specDir}, Module: "TaxInversion", Config: "TaxInversionScan.cfg", Workers: 8, Timeout: 20 * time.Minute})
+		cov["tax_equation_full_period_scan_states"] = sc.Distinct
+		if sc.Distinct < taxPeriodT {
+			c.Fatal("vacuity: the full-period scan of the tax equation visited only %d targets", sc.Distinct)
+		}
 	}
 	if wz.Violated != "NeverPartialRefill" {
 		c.Fatal("vacuity: the design model (sizes) has no append of fewer sectors than were freed (TLC did not refute NeverPartialRefill: %q)\n%s", wz.Violated, vlib.Tail(wz.Out, 1200))
@@ -274,6 +287,11 @@ func replay(c *vlib.Ctx) {
 		events = s.events
 	case "v1":
 		events = []ev{v1Line(newV1Env(), f.Case.Seed, f.Case.Line)}
+	case "tax":
+		if f.Case.Tax == nil {
+			c.Fatal("replay: tax inversion case without its target")
+		}
+		events = []ev{taxLine(newV1Env(), f.Case.Tax)}
 	default:
 		c.Fatal("replay: unknown case kind %q", f.Case.Kind)
 	}
@@ -306,10 +324,11 @@ func main() {
 		replay(c)
 		return
 	}
-	c.Rule("TLC emits skeletons (constructor kind x arguments x funding class sequences starting from New): all of length <= 2 (thorough 3), all of length 6 of the size/capacity focus (amply funded appends of 1..3 (thorough 1..4) sectors, frees of 1..filesize sectors, refreshes of contracts with free capacity, up to 4 (thorough 8) sectors stored), plus two seeded -simulate samples of length <= 6 (all variants; data operations favoured), de-duplicated. Each is executed once on the real rhp/v4 constructors with magnitude-stratified prices/parameters that pass the real Validate methods, boundary balances arranged from the real cost functions. One evaluation = one trace line: a constructor call with its cost functions and its submission(s) to the real ValidateV2Transaction, or one probe (an accepted result altered in one field and submitted), or one rhp/v2-v3 / allowance-limit line. Non-trivial = a line of a distinct skeleton (requests passed the real Validate) or a distinct independent line, validated by TLC without rejection.")
+	c.Rule("TLC emits skeletons (constructor kind x arguments x funding class sequences starting from New): all of length <= 2 (thorough 3), all of length 6 of the size/capacity focus (amply funded appends of 1..3 (thorough 1..4) sectors, frees of 1..filesize sectors, refreshes of contracts with free capacity, up to 4 (thorough 8) sectors stored), plus two seeded -simulate samples of length <= 6 (all variants; data operations favoured), de-duplicated. Each is executed once on the real rhp/v4 constructors with magnitude-stratified prices/parameters that pass the real Validate methods, boundary balances arranged from the real cost functions. One evaluation = one trace line: a constructor call with its cost functions and its submission(s) to the real ValidateV2Transaction, or one probe (an accepted result altered in one field and submitted), or one rhp/v2-v3 / allowance-limit line. The rhp/v2-v3 formation and renewal lines take the sum of the valid outputs (the target of the tax inversion) at random and, in a second batch, from TLC: spec/rhp/TaxInversion.tla enumerates every payout within 60 of the two boundaries of each of the 78 phases of two periods of the tax equation (estimate exactly 0 / 1 / 9998 / 9999 above the solution, one or two solutions, exact or rounded estimate, borrow or not) and the smallest targets; one target per (class, phase) (thorough 4; rare classes completely) goes raw and lifted by whole periods into magnitude strata (one word, high word below / at the siafund count, 1..10^6 SC, up to 2^108) through rhp/v2 PrepareContractFormation, rhp/v2 and rhp/v3 PrepareContractRenewal to the real ValidateTransaction under a state after and one before the tax hardfork. Non-trivial = a line of a distinct skeleton (requests passed the real Validate) or a distinct independent line, validated by TLC without rejection.")
 	c.Assume("BigNat (cross-checked against TLC integers by spec/lib/BigNatTest in C15) is the arithmetic oracle")
 	c.Assume("signatures, element proofs and key continuity are produced honestly by the harness (real signing code, real accumulator); the transcribed consensus rules cover amounts, sizes, heights and revision numbers")
 	c.Assume("magnitudes: prices < 2^70, allowances/collateral < 2^110, sector batches <= 3*2^15, durations < 2^17 blocks: no Currency overflow inside the constructors or Validate (overflow there panics by design of types.Currency)")
+	c.Assume("v1 tax inversion: the rhp/v2 and rhp/v3 constructors take no consensus state and aim at the tax rule in force since the tax hardfork; under a state before the hardfork only the agreement of the real FileContractTax / ValidateTransaction with the transcribed rule is checked, not that the constructed contract is accepted")
 	c.Assume("usage formulas checked are those documented on HostPrices (per byte per block, per 4 KiB moved, per sector freed)")
 	c.Assume("admission: the Validate methods of rhp/v4/validation.go are the host-side validation; revision requests (append, free, roots, fund, replenish) are only issued against a contract that is still revisable (the host looks the contract up and checks its proof height separately); challenge signatures are honest")
 
@@ -320,6 +339,14 @@ func main() {
 	go func() {
 		defer modelRuns.Done()
 		runModelChecks(c, modelCov)
+	}()
+
+	// 1e. targets of the v1 tax inversion (window mode of TaxInversion.tla), also in the background
+	var taxPl *taxPlan
+	taxDone := make(chan struct{})
+	go func() {
+		defer close(taxDone)
+		taxPl = taxTargets(c)
 	}()
 
 	// 2. skeletons: exhaustive short ones + seeded sample of long ones
@@ -505,6 +532,48 @@ func main() {
 		}
 	}
 
+	// rhp/v2, rhp/v3 lines whose target is chosen by the tax inversion model
+	<-taxDone
+	taxStart := len(events) + 1
+	taxLines := make([]ev, len(taxPl.picks))
+	{
+		var wg sync.WaitGroup
+		for w := 0; w < 8; w++ {
+			wg.Add(1)
+			go func(w int) {
+				defer wg.Done()
+				env := newV1Env()
+				for i := w; i < len(taxPl.picks); i += 8 {
+					taxLines[i] = taxLine(env, taxPl.picks[i])
+				}
+			}(w)
+		}
+		wg.Wait()
+	}
+	taxExec, taxAcc := map[string]int{}, map[string]int{}
+	taxSeen := map[string]bool{}
+	taxDistinct := 0
+	for i, e := range taxLines {
+		tp := taxPl.picks[i]
+		a, _ := e["accepted"].(bool)
+		for _, key := range []string{"ctor/" + taxCtors[tp.Ctor], "class/" + taxCtors[tp.Ctor] + "/" + tp.Cls, "scale/" + taxCtors[tp.Ctor] + "/" + tp.Scale,
+			"dist-scale/" + distClass(tp.Cls) + "/" + tp.Scale, fmt.Sprintf("dist-phase/%s/%02d", distClass(tp.Cls), tp.Phase)} {
+			taxExec[key]++
+			if a || tp.T0 == 0 && tp.K == "0" { // the target zero gives the payout zero, which consensus refuses
+
+				taxAcc[key]++
+			}
+		}
+		if key := fmt.Sprintf("%d/%s/%d", tp.T0, tp.K, tp.Ctor); !taxSeen[key] {
+			taxSeen[key] = true
+			taxDistinct++
+		}
+		events = append(events, e)
+		if (i+1)%64 == 0 || i == len(taxLines)-1 {
+			chunks = append(chunks, [2]int{taxStart + (i/64)*64, len(events)})
+		}
+	}
+
 	// development aid (binding demonstration): corrupt one logged field of the expected side; TLC must
 	// reject the line and, since the real code does not reproduce it, the run must end as INFRA.
 	if v := os.Getenv("C17_CORRUPT"); v != "" {
@@ -526,6 +595,10 @@ func main() {
 			if e["ev"] == "renew" && e["op"] == v {
 				r := e["r"].(ev)
 				r["hr"] = vlib.Limbs(new(big.Int).Add(vlib.FromLimbs(r["hr"].([]int)), big.NewInt(1)))
+				break
+			}
+			if v == "tax" && e["ev"] == "v1renew2" && e["t0"] != -1 {
+				e["payout"] = vlib.Limbs(new(big.Int).Add(vlib.FromLimbs(e["payout"].([]int)), big.NewInt(10000)))
 				break
 			}
 			if e["ev"] == v && v == "v1form" {
@@ -566,7 +639,10 @@ func main() {
 		e := events[ln-1]
 		var again ev
 		cs := seqCase{Seed: c.Seed, Msgs: tr.rejects[ln], Ev: normalise(e)}
-		if ln >= v1Start {
+		if ln >= taxStart {
+			cs.Kind, cs.Tax = "tax", taxPl.picks[ln-taxStart]
+			again = taxLine(env, cs.Tax)
+		} else if ln >= v1Start {
 			cs.Kind, cs.Line = "v1", ln-v1Start
 			again = v1Line(env, c.Seed, ln-v1Start)
 		} else {
@@ -609,7 +685,7 @@ func main() {
 	// 6. evidence and vacuity guards
 	c.Traces(int64(len(runs)) + 1)
 	rejectedLines := int64(len(tr.rejects))
-	c.Count(int64(nSeqLines-len(runs)+nV1), int64(nSeqLines-len(runs)+v1Distinct)-rejectedLines)
+	c.Count(int64(nSeqLines-len(runs)+nV1+len(taxLines)), int64(nSeqLines-len(runs)+v1Distinct+taxDistinct)-rejectedLines)
 	c.Cov("sequences", len(runs))
 	c.Cov("operations_by_kind", st.ops)
 	c.Cov("classes", st.classes)
@@ -634,7 +710,14 @@ func main() {
 	c.Cov("v1_renewal_errors", v1Err)
 	c.Cov("v1_pay_ok", v1PayOK)
 	c.Cov("v1_pay_refused", v1PayNo)
-	for _, i := range []int{1, 3, nSeqLines / 2, nSeqLines - 1, v1Start, v1Start + 1} {
+	c.Cov("tax_inversion_model_states", taxPl.modelState)
+	c.Cov("tax_inversion_model_targets", len(taxPl.cases))
+	c.Cov("tax_inversion_model_targets_by_class", taxPl.byClass)
+	c.Cov("tax_inversion_lines", len(taxLines))
+	c.Cov("tax_inversion_lines_distinct", taxDistinct)
+	c.Cov("tax_inversion_executed", taxExec)
+	c.Cov("tax_inversion_accepted_by_real_consensus", taxAcc)
+	for _, i := range []int{1, 3, nSeqLines / 2, nSeqLines - 1, v1Start, v1Start + 1, taxStart} {
 		if i >= 0 && i < len(events) {
 			c.Sample(events[i])
 		}
@@ -713,6 +796,32 @@ func main() {
 		}
 		if st.aborted > 0 {
 			c.Infra("%d sequences stopped early although no line was rejected", st.aborted)
+		}
+		// tax inversion: every class of the model went through every constructor and was accepted by the real
+		// consensus code, in every magnitude stratum; every boundary distance in every phase of the equation
+		for ci := range taxCtors {
+			for cls := range taxPl.byClass {
+				if key := "class/" + taxCtors[ci] + "/" + cls; taxAcc[key] == 0 {
+					c.Infra("vacuity: no target of class %s through %s was accepted by consensus (%d executed)", cls, taxCtors[ci], taxExec[key])
+				}
+			}
+			for _, sc := range taxScales {
+				if key := "scale/" + taxCtors[ci] + "/" + sc; taxAcc[key] == 0 {
+					c.Infra("vacuity: no target of magnitude stratum %s through %s was accepted by consensus (%d executed)", sc, taxCtors[ci], taxExec[key])
+				}
+			}
+		}
+		for _, d := range []string{"d0", "d1", "d9998", "d9999"} {
+			for _, sc := range taxScales {
+				if key := "dist-scale/" + d + "/" + sc; taxAcc[key] == 0 {
+					c.Infra("vacuity: no target at distance %s in magnitude stratum %s was accepted by consensus", d, sc)
+				}
+			}
+			for ph := 0; ph < 39; ph++ {
+				if key := fmt.Sprintf("dist-phase/%s/%02d", d, ph); taxAcc[key] == 0 {
+					c.Infra("vacuity: no target at distance %s in phase %d of the tax equation was accepted by consensus", d, ph)
+				}
+			}
 		}
 		if v1Accepted < nV1/4 || v1Err == 0 || v1PayOK == 0 || v1PayNo == 0 {
 			c.Infra("vacuity: v1 lines accepted=%d renewalErrors=%d payOK=%d payRefused=%d", v1Accepted, v1Err, v1PayOK, v1PayNo)
